@@ -238,6 +238,8 @@ pub struct Lexer<'a> {
     start_column: u32,
     /// Tracks if we just saw a newline (for ASI)
     saw_newline: bool,
+    /// Start (offset, line, column) of a block comment that ran to the end of the input
+    unterminated_comment: Option<(usize, u32, u32)>,
     /// String dictionary for interning identifiers and strings
     string_dict: &'a mut StringDict,
 }
@@ -255,6 +257,7 @@ impl<'a> Lexer<'a> {
             start_line: 1,
             start_column: 1,
             saw_newline: false,
+            unterminated_comment: None,
             string_dict,
         }
     }
@@ -326,6 +329,12 @@ impl<'a> Lexer<'a> {
         #[cfg(tsrun_verif)]
         crate::verif_hooks::parse_tick();
         self.skip_whitespace_and_comments();
+        if let Some((pos, line, column)) = self.unterminated_comment.take() {
+            return Token::new(
+                TokenKind::Invalid('*'),
+                Span::new(pos, self.current_pos, line, column),
+            );
+        }
 
         self.start_pos = self.current_pos;
         self.start_line = self.line;
@@ -395,8 +404,9 @@ impl<'a> Lexer<'a> {
         if let Some((pos, ch)) = result {
             // Add base offset for absolute position (needed when chars is reset from middle of source)
             self.current_pos = self.chars_base_offset + pos + ch.len_utf8();
-            // ECMAScript line terminators: LF, LS (U+2028), PS (U+2029)
-            if ch == '\n' || ch == '\u{2028}' || ch == '\u{2029}' {
+            // ECMAScript line terminators: LF, CR (CR LF counts once), LS (U+2028), PS (U+2029)
+            let lone_cr = ch == '\r' && self.chars.peek().map(|(_, c)| *c) != Some('\n');
+            if ch == '\n' || ch == '\u{2028}' || ch == '\u{2029}' || lone_cr {
                 self.line += 1;
                 self.column = 1;
             } else {
@@ -437,6 +447,7 @@ impl<'a> Lexer<'a> {
 
     fn skip_whitespace_and_comments(&mut self) {
         self.saw_newline = false;
+        self.unterminated_comment = None;
 
         loop {
             match self.peek() {
@@ -447,15 +458,15 @@ impl<'a> Lexer<'a> {
                 // - \u0020 (space)
                 // - \u00A0 (no-break space)
                 // - \uFEFF (BOM / zero-width no-break space)
-                Some(' ' | '\t' | '\r' | '\u{000B}' | '\u{000C}' | '\u{00A0}' | '\u{FEFF}') => {
+                Some(' ' | '\t' | '\u{000B}' | '\u{000C}' | '\u{00A0}' | '\u{FEFF}') => {
                     self.advance();
                 }
                 // ECMAScript line terminators:
                 // - \u000A (LF - line feed)
                 // - \u2028 (LS - line separator)
                 // - \u2029 (PS - paragraph separator)
-                // Note: \r (CR) is handled above as whitespace since it doesn't trigger ASI on its own
-                Some('\n' | '\u{2028}' | '\u{2029}') => {
+                // - \u000D (CR - carriage return)
+                Some('\n' | '\r' | '\u{2028}' | '\u{2029}') => {
                     self.saw_newline = true;
                     self.advance();
                 }
@@ -467,13 +478,14 @@ impl<'a> Lexer<'a> {
                         self.advance(); // /
                         while let Some(ch) = self.peek() {
                             // ECMAScript line terminators end single-line comments
-                            if ch == '\n' || ch == '\u{2028}' || ch == '\u{2029}' {
+                            if ch == '\n' || ch == '\r' || ch == '\u{2028}' || ch == '\u{2029}' {
                                 break;
                             }
                             self.advance();
                         }
                     } else if next == Some('*') {
                         // Multi-line comment
+                        let comment_start = (self.current_pos, self.line, self.column);
                         self.advance(); // /
                         self.advance(); // *
                         let mut depth = 1;
@@ -487,12 +499,16 @@ impl<'a> Lexer<'a> {
                                     self.advance();
                                     depth += 1;
                                 }
-                                // ECMAScript line terminators: LF, LS (U+2028), PS (U+2029)
-                                Some((_, '\n' | '\u{2028}' | '\u{2029}')) => {
+                                // ECMAScript line terminators: LF, CR, LS (U+2028), PS (U+2029)
+                                Some((_, '\n' | '\r' | '\u{2028}' | '\u{2029}')) => {
                                     self.saw_newline = true;
                                 }
                                 Some(_) => {}
-                                None => break,
+                                None => {
+                                    // Unterminated comment: reported as an invalid token at its start
+                                    self.unterminated_comment = Some(comment_start);
+                                    break;
+                                }
                             }
                         }
                     } else {
@@ -594,12 +610,13 @@ impl<'a> Lexer<'a> {
                         pattern.push(c);
                     }
                 }
+                Some((_, '\n' | '\r' | '\u{2028}' | '\u{2029}')) | None => {
+                    // Unterminated regex: a regular expression literal cannot span lines
+                    let span = Span::new(start_pos, self.current_pos, start_line, start_column);
+                    return Token::new(TokenKind::Invalid('/'), span);
+                }
                 Some((_, c)) => {
                     pattern.push(c);
-                }
-                None => {
-                    // Unterminated regex
-                    break;
                 }
             }
         }
@@ -824,19 +841,24 @@ impl<'a> Lexer<'a> {
                                 value.push(ch);
                             }
                         }
-                        Some((_, '\n')) => {
+                        Some((_, '\n' | '\u{2028}' | '\u{2029}')) => {
                             // Line continuation
                         }
+                        Some((_, '\r')) => {
+                            // Line continuation (CR or CR LF)
+                            if self.peek() == Some('\n') {
+                                self.advance();
+                            }
+                        }
                         Some((_, c)) => value.push(c),
-                        None => break,
+                        None => return TokenKind::Invalid(quote),
                     }
                 }
-                Some((_, '\n')) => {
+                Some((_, '\n' | '\r')) | None => {
                     // Unterminated string
-                    break;
+                    return TokenKind::Invalid(quote);
                 }
                 Some((_, c)) => value.push(c),
-                None => break,
             }
         }
 
@@ -995,7 +1017,7 @@ impl<'a> Lexer<'a> {
         }
 
         // Unterminated template
-        TokenKind::TemplateNoSub(self.string_dict.get_or_insert(&value))
+        TokenKind::Invalid('`')
     }
 
     /// Continue scanning a template literal after an expression
@@ -1091,7 +1113,8 @@ impl<'a> Lexer<'a> {
             }
         }
 
-        TokenKind::TemplateTail(self.string_dict.get_or_insert(&value))
+        // Unterminated template
+        TokenKind::Invalid('`')
     }
 
     /// Rescan template continuation from a given span position (the } token)
